@@ -911,6 +911,13 @@ struct TextEval {
     ops_repaired: Option<Vec<DiffOp>>,
 }
 
+thread_local! {
+    /// driving `iter_all_changes` through every adapter from every state is by far the most expensive part of evaluating a
+    /// small text diff; a pair is evaluated five or six times (modes, repeated runs, clocks) over the SAME iterator code, so
+    /// only the first evaluation of a pair drives it
+    static DRIVE_ITERATORS: std::cell::Cell<bool> = const { std::cell::Cell::new(true) };
+}
+
 fn text_eval<T: DiffableStr + ?Sized>(c: &TextCfg, how: DlHow, old: &T, new: &T) -> Option<TextEval> {
     let (diff, _, _, probes) = obs::with_world(c.dl, false, |inst| build_diff(c, how, inst, old, new));
     let diff = diff?;
@@ -921,9 +928,11 @@ fn text_eval<T: DiffableStr + ?Sized>(c: &TextCfg, how: DlHow, old: &T, new: &T)
         let nt: Vec<Vec<u8>> = diff.new_slices().iter().map(|t| t.as_bytes().to_vec()).collect();
         let indep = tokenize(c.kind, old).iter().map(|t| t.as_bytes()).eq(ot.iter().map(|t| &t[..]))
             && tokenize(c.kind, new).iter().map(|t| t.as_bytes()).eq(nt.iter().map(|t| &t[..]));
-        let driven = if all.len() <= 120 {
-            let want: Vec<String> = all.iter().map(|c| format!("{:?}", c)).collect();
-            super::misc::drive_check(|| diff.iter_all_changes(), |c| format!("{:?}", conv_change(c)), &want)
+        let driven = if all.len() <= 120 && DRIVE_ITERATORS.with(|d| d.get()) {
+            // a cheap fingerprint of a change: tag, both indices and the IDENTITY (address, length) of its value slice
+            let fp = |c: similar::Change<&T>| format!("{}{:?}{:?}@{:x}+{}", tag_char(c.tag()), c.old_index(), c.new_index(), c.value().as_bytes().as_ptr() as usize, c.value().len());
+            let want: Vec<String> = diff.iter_all_changes().map(fp).collect();
+            super::misc::drive_check(|| diff.iter_all_changes(), fp, &want)
         } else {
             Ok(())
         };
@@ -1138,7 +1147,9 @@ fn check_text(ctx: &mut Ctx, req: &str, c: &TextCfg, old: &[u8], new: &[u8], ev:
 /// one T2 request (emit + validate); returns the answer and the evaluation
 fn text_case(ctx: &mut Ctx, c: &TextCfg, mode: Mode, old: &[u8], new: &[u8]) -> (String, Option<TextEval>) {
     let req = text_request(c, mode, old, new);
+    let t0 = Instant::now();
     let ev = text_eval_mode(c, DlHow::Deadline, mode, old, new);
+    ctx.add("time_us.case.eval", t0.elapsed().as_micros() as u64);
     let ans = text_answer(&ev);
     ctx.emit(&req, &ans);
     ctx.count(&format!("text.kind.{}.{}", c.kind.name(), mode.name()));
@@ -1157,7 +1168,9 @@ fn text_case(ctx: &mut Ctx, c: &TextCfg, mode: Mode, old: &[u8], new: &[u8]) -> 
     match &ev {
         None => ctx.violation("C04", &req, "the text diff panicked".to_string()),
         Some(e) => {
+            let t1 = Instant::now();
             check_text(ctx, &req, c, old, new, e);
+            ctx.add("time_us.case.check_text", t1.elapsed().as_micros() as u64);
             ctx.max("text.max_tokens_per_side", e.old_toks.len().max(e.new_toks.len()) as u64);
         }
     }
@@ -1166,12 +1179,25 @@ fn text_case(ctx: &mut Ctx, c: &TextCfg, mode: Mode, old: &[u8], new: &[u8]) -> 
 
 /// a pair in every applicable mode, plus the C20 / C07 checks
 fn text_pair(ctx: &mut Ctx, c: &TextCfg, old: &[u8], new: &[u8], idx: u64) {
+    DRIVE_ITERATORS.with(|d| d.set(true));
+    let t0 = Instant::now();
+    text_pair_inner(ctx, c, old, new, idx);
+    ctx.add("time_us.pair.total", t0.elapsed().as_micros() as u64);
+    DRIVE_ITERATORS.with(|d| d.set(true));
+}
+
+fn text_pair_inner(ctx: &mut Ctx, c: &TextCfg, old: &[u8], new: &[u8], idx: u64) {
     let valid = is_utf8(old) && is_utf8(new);
     // the gates below must not correlate with how the caller derived kind / algorithm / newline override from the
     // same index: use a scrambled copy
     let gate = (idx ^ 0x5bd1).wrapping_mul(0x9E37_79B9_7F4A_7C15) >> 17;
+    let t0 = Instant::now();
     let (_, eb) = text_case(ctx, c, Mode::Bytes, old, new);
+    ctx.add("time_us.pair.first_case", t0.elapsed().as_micros() as u64);
+    DRIVE_ITERATORS.with(|d| d.set(false));
+    let t0 = Instant::now();
     let es = if valid { text_case(ctx, c, Mode::Str, old, new).1 } else { None };
+    ctx.add("time_us.pair.second_case", t0.elapsed().as_micros() as u64);
     if !valid {
         ctx.count("text.invalid_utf8_pairs");
         if c.kind.external() {
